@@ -52,6 +52,10 @@ FINDINGS = {
     "C17-F14": ("on a command line that the line heuristic takes for Python, the indent of a backslash-continuation line is rescaled "
                 "relative to the file's indent width and can round to nothing (`curl\\<newline> x` in a file indented by 8): the continued "
                 "word is glued to the previous one", "if a:\n        b\ncurl\\\n x\n"),
+    "C17-F15": ("after a line holding a `$[`/`$(`/`![`/`!(` capture, xonsh's tokenizer reports trailing comments with the blank before "
+                "the `#` inside the COMMENT token; on a recognised macro line (`name! raw text  # c`) the formatter copies the source gap "
+                "(now one blank short) and strips the token, so every pass eats one blank before the comment (not idempotent) and a "
+                "single blank disappears: `m! a # c` -> `m! a# c`, the comment becomes part of the macro's raw argument", "$[ls]\nm! a # c\n"),
 }
 
 
@@ -100,6 +104,9 @@ def edit_finding(d):
         t = nxt if (nxt is not None and nxt.macro == "alias") else (d["inside"] if d["inside"] is not None else prev)
         if t is not None and t.macro == "alias" and not t.macro_head_first:
             return "C17-F09"
+        if rule == "comment-pad" and shape in ("remove", "respace") and nxt is not None and nxt.quirk \
+                and len(d["inserted"]) == len(d["removed"]) - 1 and d["inserted"].strip(" \t") == "":
+            return "C17-F15"
         return None
     if rule.endswith(":strip-trailing-blank") and rule.startswith(("in-STRING", "in-FSTRING_MIDDLE")) and ctx in ("token", "fstring"):
         return "C17-F01"
@@ -190,6 +197,8 @@ def classify(kind, sig, det, open_ids):
         # (a backslash, a lone quote) are re-spaced on every pass
         if all(d["ctx"] == "macro-block" for d in det) and "C17-F04" in open_ids:
             return "C17-F04"
+        if {edit_finding(d) for d in det} == {"C17-F15"} and "C17-F15" in open_ids:
+            return "C17-F15"
         return None
     ids = {edit_finding(d) for d in det}
     if len(ids) == 1:
